@@ -371,6 +371,8 @@ func (p *Policy) sanitize(r io.Reader, w io.Writer) error {
 
 		case html.SelfClosingTagToken:
 
+			mostRecentlyStartedToken = normaliseElementName(token.Data)
+
 			switch normaliseElementName(token.Data) {
 			case `script`:
 				if !p.allowUnsafe {
